@@ -209,6 +209,48 @@ def fmt_list(ma):
 # ----------------------------------------------------------------------------
 # correspondence: real code vs Lean model
 
+def _ma_len(tok):
+    return 0 if tok == "-" else tok.count(",") + 1
+
+
+def in_domain(req):
+    """is this request inside the property's quantifier (HSN 0..63, MAIO 0..63, N 1..64, FN 0..2715647; firmware: a
+    struct gsm_time that decomposes a frame number, a hopping dedicated channel, an allocation table holding N entries)?
+    Differences between model and code outside it are reported in the evidence, never as a broken tie: a new guard or
+    another failure mode for values the standard excludes cannot break the property."""
+    t = req.split()
+    try:
+        if t[0] == "hop.py":
+            return 0 <= int(t[1]) <= 63 and 0 <= int(t[2]) <= 63 and 0 <= int(t[3]) < H and 1 <= _ma_len(t[4]) <= 64
+        if t[0] == "hop.pypnm":
+            return 1 <= int(t[1]) <= 64
+        if t[0] == "hop.freq":
+            return int(t[1]) == 0 or (0 <= int(t[2]) <= 63 and 0 <= int(t[3]) <= 63 and 0 <= int(t[4]) < H and 1 <= _ma_len(t[5]) <= 64)
+        if t[0] == "hop.seq":
+            for op in " ".join(t[4:]).split(";"):
+                o = op.split()
+                if o[0] == "E" and not (0 <= int(o[1]) <= 63 and 0 <= int(o[2]) <= 63 and 1 <= _ma_len(o[3]) <= 64):
+                    return False
+                if o[0] == "Q" and not 0 <= int(o[1]) < H:
+                    return False
+            return True
+        if t[0] == "hop.fwfn":
+            hsn, maio, n, fn = (int(x) for x in t[1:5])
+            return hsn <= 63 and maio <= 63 and 1 <= n <= 64 and fn < H and _ma_len(t[5]) >= n
+        if t[0] == "hop.fw":
+            ty, h, serv, h0, fn, t1, t2, t3, hsn, maio, n = (int(x) for x in t[1:12])
+            return (h == 1 and hsn <= 63 and maio <= 63 and 1 <= n <= 64 and t1 < 2048 and t2 < 26 and t3 < 51
+                    and _ma_len(t[12]) >= n)
+        if t[0] == "hop.fwmai":
+            t1, t2, t3, fn, hsn, maio, n = (int(x) for x in t[1:8])
+            return hsn <= 63 and maio <= 63 and 1 <= n <= 64 and t1 < 2048 and t2 < 26 and t3 < 51
+        if t[0] == "hop.fwpnm":
+            return 1 <= int(t[1]) <= 64
+    except (ValueError, IndexError):
+        return False
+    return True
+
+
 def correspond(run, corr):
     rng = run.rng
     gs = os.path.join(vf.TRX, "gsm_shared.py")
@@ -263,7 +305,7 @@ def correspond_py(run, corr, rng, n_py):
     preqs += ["hop.pypnm %d" % n for n in list(range(0, 140)) + [200, 255, 256, 257, 1000]]
     pimpl = vf.run_lines(py_cmd(), preqs)
     pmodel = vf.run_driver(preqs)
-    corr.compare(preqs, pimpl, pmodel)
+    corr.compare(preqs, pimpl, pmodel, in_domain=in_domain)
     for r, a in zip(preqs, pimpl):
         corr.count(r, r.split()[0] + ":" + ("exc" if "EXC" in a else "ok"))
     return [{"request": r[:160], "impl": a, "model": b} for r, a, b in list(zip(preqs, pimpl, pmodel))[:3]]
@@ -298,7 +340,7 @@ def correspond_seq(run, corr, rng, n_seq):
     reqs = [gen_seq(rng) for _ in range(n_seq)]
     impl = vf.run_lines(py_cmd(), reqs)
     model = vf.run_driver(reqs)
-    corr.compare(reqs, impl, model)
+    corr.compare(reqs, impl, model, in_domain=in_domain)
     for r, a in zip(reqs, impl):
         corr.count(r, "hop.seq:" + ("exc" if "EXC" in a else "ok"))
     return [{"request": r[:160], "impl": a[:160], "model": b[:160]} for r, a, b in list(zip(reqs, impl, model))[:1]]
@@ -389,7 +431,7 @@ def correspond_fw(run, corr, rng, n_fw):
     defined = [(r, m) for r, m in zip(freqs, fmodel) if not (m.startswith("oob-") or m == "divzero")]
     undefined = len(freqs) - len(defined)
     fimpl = vf.run_lines([exe], [r for r, _ in defined])
-    corr.compare([r for r, _ in defined], fimpl, [m for _, m in defined])
+    corr.compare([r for r, _ in defined], fimpl, [m for _, m in defined], in_domain=in_domain)
     for (r, m) in defined:
         corr.count(r, r.split()[0])
     corr.distribution["fw requests classified undefined behaviour by the model (not executed)"] = undefined
@@ -513,7 +555,7 @@ def check_disagreements(run, exe):
             if tok[0] == "hop.py":
                 hsn, maio, fn = int(tok[1]), int(tok[2]), int(tok[3])
                 n = 0 if tok[4] == "-" else len(tok[4].split(","))
-                if 0 <= hsn <= 63 and 1 <= n <= 64 and maio >= 0 and 0 <= fn < H:
+                if 0 <= hsn <= 63 and 1 <= n <= 64 and 0 <= maio <= 63 and 0 <= fn < H:
                     # re-run on the real code with a canonical MA of the same size (the property does not depend on its contents)
                     arfcns = list(range(101, 101 + n))
                     ma = py_ma_of(arfcns)
